@@ -219,7 +219,6 @@ let () =
                 every member (crossCheckArguments) = free in the merged table *)
              let merged = ref [] and dropped = ref [] in
              let has_subs = !subspecs <> [] in
-             if has_subs && is_group then raise (Unsupported "sub-group inside an argument group");
              let build (_, flags, args, cons) =
                if has_subs then merged := [];       (* every handler has its own key table *)
                let defs = List.map parse_arg (List.rev args) in
@@ -268,6 +267,35 @@ let () =
                (c, List.map (fun (_, _, i) -> i) defs, List.map (fun (s, _, _) -> s) defs, flags) in
              let built = List.map build members in
              let show slots arts = List.map2 (fun sl a -> sl ^ "=" ^ show_value a.val0) slots arts in
+             if has_subs && is_group then begin
+               (* members of a group that own sub-group arguments: ArgH/GroupsGen.v.  A sub-group handler (S:)
+                  belongs to the group member (G:) defined last before it *)
+               if !file <> None || !env <> None || !sline <> None || !xfiles <> [] then raise (Unsupported "group with sources");
+               let indexed = List.mapi (fun i b -> (i, b)) built in
+               let is_sub i = List.mem_assoc i !subspecs in
+               let rules = List.combine (List.rev_map fst !subspecs) (List.rev !subrules) in
+               (* fold over the handlers in order: a G member opens a new entry, an S handler is added to the last *)
+               let grp = List.fold_left (fun acc (i, b) ->
+                   if is_sub i then
+                     (match acc with
+                      | (main, subs) :: r -> (main, subs @ [(i, b)]) :: r
+                      | [] -> raise (Unsupported "sub-group without member"))
+                   else (b, []) :: acc) [] indexed in
+               let grp = List.rev grp in
+               let cs = List.map (fun ((mc, _, _, _), subs) ->
+                   { sg_main = mc;
+                     sg_subs = List.map (fun (i, (c, _, _, _)) -> (key_of_spec (List.assoc i !subspecs), c)) subs;
+                     sg_rules = List.map (fun (i, _) -> List.assoc i rules) subs }) grp in
+               if not (grp_keys_ok cs) then raise Setup;
+               let inits = List.map (fun ((_, mi, _, _), subs) -> (mi, List.map (fun (_, (_, i, _, _)) -> i) subs)) grp in
+               (match eval_group_sg cs inits (List.map str_of_string !argv) with
+                | Ok sts ->
+                    let vals = List.sort compare (List.concat (List.map2 (fun ((_, _, msl, _), subs) st ->
+                        show msl st.sm.arts @ List.concat (List.map2 (fun (_, (_, _, sl, _)) s -> show sl s.arts) subs st.ss)) grp sts)) in
+                    Printf.printf "%s ok %s ## -\n" id (String.concat " " vals)
+                | Err e -> Printf.printf "%s err ## %s\n" id (err_name e)
+                | Fault _ -> Printf.printf "%s FAULT ## fault\n" id)
+             end else
              if has_subs then begin
                if !file <> None || !env <> None || !sline <> None || !xfiles <> [] then raise (Unsupported "sub-group with sources");
                let indexed = List.mapi (fun i b -> (i, b)) built in
